@@ -52,6 +52,7 @@ class Results:
         self.notes = []
         self.samples = []
         self.exhaustive_sites = {}
+        self.deferred = []
         self.t0 = time.time()
 
     def _add(self, rule, where, node, status, detail, nontrivial=True, construct=None, **extra):
@@ -83,12 +84,21 @@ class Results:
     def count(self, name, n=1):
         self.counters[name] = self.counters.get(name, 0) + n
 
-    def floor(self, rule, what, measured, minimum):
-        """Vacuity guard: a rule that matched fewer instances than were confirmed by hand is analysis-broken."""
+    def floor(self, rule, what, measured, minimum, defer=False):
+        """Vacuity guard: a rule that matched fewer instances than were confirmed by hand is analysis-broken.
+        defer=True: the failure is raised at the end of the run (`raise_deferred`), so that the rules after it still get to report definite
+        violations (only for floors whose dependants iterate over the matched instances and are vacuous without them)."""
         self.floors.append({'rule': rule, 'what': what, 'measured': measured, 'floor': minimum})
+        if measured < minimum and defer:
+            self.deferred.append(f'{rule}: only {measured} {what} found, expected at least {minimum} (anchor vanished or idiom no longer recognised)')
+            return
         if measured < minimum:
             raise AnalysisError(f'{rule}: only {measured} {what} found, expected at least {minimum} '
                                 f'(anchor vanished or idiom no longer recognised)')
+
+    def raise_deferred(self):
+        if self.deferred:
+            raise AnalysisError(self.deferred[0])
 
     def assume(self, text):
         if text not in self.assumptions:
